@@ -284,6 +284,14 @@ def run(ctx):
               'the depfile\'s primary output is canonicalised before it is compared with the edge\'s output')
     ctx.floor('C10.CN', 8)
 
+    # ---- CC: a discovered input is compared like a declared one ------------------------------------
+    R('C10.CC', 'CC', 'the follow-up output check that runs once the discovered inputs are known compares the logged mtime '
+      'with the newest input exactly as the first pass does: no clean verdict with a log entry and an input but without '
+      'that comparison')
+    from props.scan_common import check_logged_mtime_compared
+    check_logged_mtime_compared(ctx, 'C10.CC', prog)
+    ctx.floor('C10.CC', 2)
+
 
 def _res(f, d):
     from rules import deep_resolve
